@@ -250,6 +250,65 @@ def sigma_classes(fname, sp, rng):
         yield 'per-component', [0.4, 1.3][:len(sp)] if len(sp) <= 2 else [0.4, 1.3, 0.7][:len(sp)]
 
 
+def factory_table(sp, rng):
+    """The proximal *factories* called directly with their documented options (lam, data term g, per-point step): the option
+    combinations are not all reachable through the Functional classes.  (name, factory, functional with the same meaning
+    assembled from library functionals - the value oracle -, per-point step documented, tags)."""
+    from odl.solvers.nonsmooth import proximal_operators as P
+    g = functab.rand_el(sp, rng)
+    gp = functab.pos_el(sp, rng)
+    for lam in (1.0, 0.7):
+        lt = 'lam=%g' % lam
+        yield 'proximal_l2_squared(%s,g)' % lt, P.proximal_l2_squared(sp, lam, g), lam * S.L2NormSquared(sp).translated(g), True, ('smooth',)
+        yield 'proximal_l2_squared(%s)' % lt, P.proximal_l2_squared(sp, lam), lam * S.L2NormSquared(sp), True, ('smooth',)
+        yield 'proximal_convex_conj_l2_squared(%s,g)' % lt, P.proximal_convex_conj_l2_squared(sp, lam, g), (lam * S.L2NormSquared(sp).translated(g)).convex_conj, True, ('smooth',)
+        yield 'proximal_convex_conj_l2_squared(%s)' % lt, P.proximal_convex_conj_l2_squared(sp, lam), (lam * S.L2NormSquared(sp)).convex_conj, True, ('smooth',)
+        yield 'proximal_l1(%s,g)' % lt, P.proximal_l1(sp, lam, g), lam * S.L1Norm(sp).translated(g), True, ()
+        yield 'proximal_convex_conj_l1(%s,g)' % lt, P.proximal_convex_conj_l1(sp, lam, g), (lam * S.L1Norm(sp).translated(g)).convex_conj, True, ()
+        yield 'proximal_l2(%s,g)' % lt, P.proximal_l2(sp, lam, g), lam * S.L2Norm(sp).translated(g), False, ()
+        yield 'proximal_convex_conj_l2(%s,g)' % lt, P.proximal_convex_conj_l2(sp, lam, g), (lam * S.L2Norm(sp).translated(g)).convex_conj, False, ()
+        yield 'proximal_convex_conj_kl(%s,g)' % lt, P.proximal_convex_conj_kl(sp, lam, gp), (lam * S.KullbackLeibler(sp, gp)).convex_conj, False, ('klcc',)
+        yield 'proximal_convex_conj_kl(%s)' % lt, P.proximal_convex_conj_kl(sp, lam), (lam * S.KullbackLeibler(sp)).convex_conj, False, ('klcc',)
+    yield 'proximal_box_constraint(element-bounds)', P.proximal_box_constraint(sp, -0.3 * sp.one(), 0.5 * sp.one()), S.IndicatorBox(sp, -0.3, 0.5), False, ('indicator',)
+    yield 'proximal_huber', P.proximal_huber(sp, 0.3), S.Huber(sp, 0.3), False, ('c1',)
+
+
+def run_factories(ctx, i0):
+    rng = ctx.rng('c07-factories')
+    i = i0
+    for sname, sp in functab.spaces():
+        if 'aw' in sname:
+            continue      # (array weights: the library functionals used as value oracle raise for Huber; covered via the functionals)
+        for fname, fac, f, elem_sigma, tags in factory_table(sp, ctx.crng('factory-ctor', sname)):
+            i += 1
+            if not ctx.mine(i):
+                continue
+            if sname == 'rn150' and not ctx.thorough:
+                continue
+            for sname_s, sigma in ([('scalar', 0.8)] + ([('element', functab.pos_el(sp, rng, 0.2, 2.0))] if elem_sigma else [])):
+                cfg = '%s;%s' % (util.space_tag(sp), sname_s)
+                try:
+                    P = fac(sigma)
+                except Exception as e:
+                    ctx.ev('finite-at-prox')
+                    ctx.violation(fname, cfg, 'proximal-raises:' + type(e).__name__, message=str(e)[:200])
+                    continue
+                for xcls, x in functab.x_classes(sp, rng, tags):
+                    if xcls in ('tiny', 'huge', 'with-exact-zeros') and not ctx.thorough:
+                        continue
+                    if 'klcc' in tags:
+                        x = -1.0 * functab.pos_el(sp, rng) if xcls != 'zero' else x
+                    ctx.case('factory;%s;%s;%s' % (fname, sname, sname_s), xcls)
+                    try:
+                        check_prox(ctx, f, sp, sigma, x, 'factory:' + fname.split('(')[0], '%s;%s' % (cfg, 'g' if ',g' in fname else 'no-g'), rng, tags, P=P)
+                        check_call_modes(ctx, P, sp, x, 'factory:' + fname.split('(')[0], cfg)
+                    except (NotImplementedError, odl.OpNotImplementedError):
+                        ctx.skip('not implemented')
+                    except Exception as e:
+                        ctx.violation('factory:' + fname.split('(')[0], cfg, 'raises:' + type(e).__name__, message=str(e)[:300], x_class=xcls)
+    return i
+
+
 def run(ctx):
     ctx.note('rule', 'one case = (functional recipe, space, sigma class, input value class); functional recipes cover every '
                      'Functional class with a proximal in the variants plain / translated or with data term / scaled / conjugate, plus all '
@@ -319,6 +378,7 @@ def run(ctx):
                 check_nonexpansive(ctx, P, sp, fname, cfg, rng, sigma)
             except Exception as e:
                 ctx.violation(fname, cfg, 'raises:' + type(e).__name__, message=str(e)[:300], probe='nonexpansive')
+    run_factories(ctx, i)
     cov.disarm()
     n_exec, n_hit, unreached = cov.report()
     ctx.note('line_coverage', {'executable': n_exec, 'hit': n_hit})
